@@ -6,7 +6,7 @@ binary decoder of vlib.wasmref inside the same exploration, and for every path
 z3 is asked for an input whose decoded value differs from what was written.
 """
 import z3
-from .. import symx, shims, wasmref, core
+from .. import symx, shims, wasmref, core, unit
 from ..symx import SymNum, Engine
 from ..shims import ShimBuf, FakeStr, Chunk
 
@@ -15,62 +15,8 @@ U32 = 2 ** 32
 
 
 def _explore(fn, pre, inst, good, twin=None, max_decisions=200):
-    """Common driver.  fn() -> value (may contain proxies); good(value) -> z3 Bool
-    stating the property on an 'ok' path.  Exceptions other than the ones listed in
-    inst['allowed_exc'] count as violations when their path is feasible."""
-    eng = Engine(max_decisions=max_decisions)
-    shims.install_wasm()
-    paths = eng.explore(fn, pre)
-    res = dict(paths=len(paths), cut=0, timeouts=0, queries=0, unsat=0, sat=0, undecided=0, violations=[],
-               known=[], errors=[], nontrivial=False, sat_replayed=0)
-    twin_sat = False
-    for p in paths:
-        if p.kind in ("cut", "timeout"):
-            res["cut" if p.kind == "cut" else "timeouts"] += 1
-            continue
-        if p.kind == "exc":
-            bad = z3.BoolVal(True)
-            what = f"{type(p.value).__name__}: {p.value}"
-            if isinstance(p.value, (TypeError, AttributeError, NameError)) and "not modelled" in str(p.value):
-                res["errors"].append(what)
-                continue
-        else:
-            try:
-                bad = z3.Not(good(p.value))
-            except Exception as e:  # noqa: BLE001
-                res["errors"].append(f"oracle failed: {type(e).__name__}: {e}")
-                continue
-            what = "decoded value differs from the value written"
-        r, model = eng.query(pre, p.pc, bad)
-        res["queries"] += 1
-        if r == "unsat":
-            res["unsat"] += 1
-            res["nontrivial"] = True
-        elif r == "unknown":
-            res["undecided"] += 1
-        else:
-            res["sat"] += 1
-            vals = {str(d): model[d].as_long() for d in model.decls() if model[d] is not None and z3.is_int_value(model[d])}
-            spec = dict(harness="C19", part=inst["part"], inst=inst, inputs=vals)
-            with shims.no_wasm_shims():
-                obs = replay(spec)
-            if obs:
-                res["sat_replayed"] += 1
-                res["violations"].append(dict(what=f"{inst['part']}: {what}; inputs {vals}; observed {obs}", replay=spec))
-            else:
-                res["errors"].append(f"counterexample {vals} for {inst['part']} did not reproduce concretely ({what})")
-        if twin is not None and p.kind == "ok" and not twin_sat:
-            r2, _ = eng.query(pre, p.pc, z3.Not(twin(p.value)))
-            if r2 == "sat":
-                twin_sat = True
-    if twin is not None and not twin_sat:
-        res["errors"].append(f"negative twin of {inst['part']} was not refuted (vacuous harness?)")
-    if eng.truncated:
-        res["errors"].append("path budget exhausted")
-    st = eng.stats()
-    res["solver_time"] = st["solver_time_s"]
-    res["feasibility_queries"] = st["feasibility_queries"]
-    return res
+    return unit.decide(fn, pre, good, inst=inst, harness="C19", replay=replay, twin=twin, max_decisions=max_decisions,
+                       setup=shims.install_wasm, around_replay=shims.no_wasm_shims)
 
 
 # -- part A: PackInteger, unsigned ---------------------------------------------------
@@ -345,7 +291,7 @@ def replay(spec):
     the observed discrepancy, or None when the violation does not reproduce."""
     from nsl import WebAssembly as W
     import io
-    part = spec["part"]
+    part = spec.get("part") or spec["inst"]["part"]
     inp = spec.get("inputs", {})
     try:
         if part == "pack-unsigned":
